@@ -1,5 +1,6 @@
 import TD.C06.Lemmas
 import TD.C06.LemmasPlan
+import TD.C06.LemmasLoad
 
 /-!
 # C06 — LIS log pass frame sets are exact; any sub-selection is a sub-matrix
@@ -41,18 +42,24 @@ theorem index_data_record (lp lp' : LogPass) (tell t : Nat) (payload : List Nat)
   obtain ⟨hlen, hfs⟩ := numFrames_ok lp.plan payload.length n hn
   exact ⟨n, hlen, hfs, by simp [hr, rle01Add_expand], by simp [hr, expand_total, rle01Add_expand]⟩
 
-/-- **RLE lookup** (restated from `Lemmas`): for a table whose records all hold at least one frame,
-`RLEType01.tellLrForFrame(f)` returns the position of the record holding frame `f` and the frame's offset in it —
-`locate` on the plain record list — and raises `IndexError` exactly when `f` is beyond the last frame. -/
-theorem rle_lookup (l : List Item01) (hpos : ∀ it ∈ l, 0 < it.numFrames) (f : Nat) :
+/-- **RLE lookup** (restated from `Lemmas`): for every run-length table, `RLEType01.tellLrForFrame(f)` returns the
+position of the record holding frame `f` and the frame's offset in it — `locate` on the plain record list — and raises
+`IndexError` exactly when `f` is beyond the last frame. -/
+theorem rle_lookup (l : List Item01) (f : Nat) :
     rle01Tell l f = (match locate (expand l) f with | some r => .ok r | none => .error .indexError) :=
-  rle01Tell_locate l hpos f
+  rle01Tell_locate l f
 
 example : rle01Tell (rle01Add (rle01Add (rle01Add [] 100 5 0) 200 5 0) 300 3 0) 11 = .ok (300, 1) := by decide
 
-/-- A record with zero frames breaks the lookup of every later frame (`ZeroDivisionError`, finding F22). -/
-theorem rle_lookup_zero_frames_fails :
-    rle01Tell (rle01Add (rle01Add (rle01Add [] 100 5 0) 200 0 0) 300 5 0) 5 = .error .zeroDiv := by decide
+/-- A record with zero frames is passed over by the lookup (was finding F22, fixed in /repo): whatever the table,
+inserting the records in order, frame `f` is found as if the empty record were not there. -/
+theorem rle_lookup_skips_empty_record (pre post : List (Int × Nat)) (t : Int) (f : Nat) :
+    locate (pre ++ (t, 0) :: post) f = locate (pre ++ post) f := by
+  induction pre generalizing f with
+  | nil => simp [locate]
+  | cons a as ih => obtain ⟨t', n⟩ := a; simp only [List.cons_append, locate, ih]
+
+example : rle01Tell (rle01Add (rle01Add (rle01Add [] 100 5 0) 200 0 0) 300 5 0) 7 = .ok (300, 2) := by decide
 
 /-! ## The read/skip plan of one logical record -/
 
@@ -210,45 +217,51 @@ theorem extrapolate_rule_later (d : Dfsr) (st : Store) (r : Run) (e : Ev) (frInt
 
 /-! ## Loads do not depend on earlier loads -/
 
-/-- **History independence**: the outcome of `setFrameSet` (file operations or exception) and the frame set it leaves
-do not depend on the frame set left by earlier loads — only on the DFSR, the record table and on whether an earlier
-load died inside the `FrameSet` constructor (`fsDeleted`, finding F20). -/
+/-- **History independence**: the outcome of `setFrameSet` (file operations or exception) and the state it leaves do
+not depend on the frame set left by earlier loads (successful or failed) — only on the DFSR and the record table. -/
 theorem setFrameSet_history_independent (lp lp' : LogPass) (st : Store) (sl : Option Sl) (ch : Option (List Nat))
-    (h1 : lp.dfsr = lp'.dfsr) (h2 : lp.plan = lp'.plan) (h3 : lp.xAxisIndex = lp'.xAxisIndex) (h4 : lp.rle = lp'.rle)
-    (h5 : lp.fsDeleted = lp'.fsDeleted) :
+    (h1 : lp.dfsr = lp'.dfsr) (h2 : lp.plan = lp'.plan) (h3 : lp.xAxisIndex = lp'.xAxisIndex) (h4 : lp.rle = lp'.rle) :
     (setFrameSet lp st sl ch).2 = (setFrameSet lp' st sl ch).2 ∧
-    (∀ ops, (setFrameSet lp st sl ch).2 = .ok ops → (setFrameSet lp st sl ch).1.frameSet = (setFrameSet lp' st sl ch).1.frameSet) := by
-  obtain ⟨d, p, x, r, f, dl⟩ := lp
-  obtain ⟨d', p', x', r', f', dl'⟩ := lp'
-  simp only at h1 h2 h3 h4 h5
-  subst h1 h2 h3 h4 h5
+    (rle01Total lp.rle ≠ 0 → (setFrameSet lp st sl ch).1 = (setFrameSet lp' st sl ch).1) := by
+  obtain ⟨d, p, x, r, f⟩ := lp
+  obtain ⟨d', p', x', r', f'⟩ := lp'
+  simp only at h1 h2 h3 h4
+  subst h1 h2 h3 h4
   unfold setFrameSet genFrameSetEvents retFrameSetMap
   simp only
   split
-  · exact ⟨rfl, fun _ h => by cases h⟩
+  · exact ⟨rfl, fun h => absurd (by assumption) h⟩
   · split
-    · exact ⟨rfl, fun _ h => by cases h⟩
+    · exact ⟨rfl, fun _ => rfl⟩
     · split
-      · exact ⟨rfl, fun _ _ => rfl⟩
+      · exact ⟨rfl, fun _ => rfl⟩
       · split
-        · exact ⟨rfl, fun _ _ => rfl⟩
-        · split
-          · exact ⟨rfl, fun _ _ => rfl⟩
-          · split <;> exact ⟨rfl, fun _ _ => rfl⟩
+        · exact ⟨rfl, fun _ => rfl⟩
+        · split <;> exact ⟨rfl, fun _ => rfl⟩
 
-/-- The one way history matters (finding F20): once `FrameSet(...)` has raised after `del self._frameSet`, every later
-load raises `AttributeError`. -/
-theorem setFrameSet_after_failed_ctor (lp : LogPass) (st st' : Store) (sl sl' : Option Sl) (ch ch' : Option (List Nat))
-    (e : Err) (hT : rle01Total lp.rle ≠ 0) (hD : lp.fsDeleted = false)
-    (hF : FrameSet.new lp.dfsr (slOrAll sl (rle01Total lp.rle)) ch lp.xAxisIndex = .error e) :
-    (setFrameSet (setFrameSet lp st sl ch).1 st' sl' ch').2 = .error .attributeError := by
-  have h1 : (setFrameSet lp st sl ch).1 = { lp with frameSet := none, fsDeleted := true } := by
+/-- A load after any earlier load — in particular after a failed one (was finding F20, fixed in /repo) — behaves like
+the first load on a fresh `LogPass`: same outcome, same resulting state. -/
+theorem setFrameSet_after_any_load (lp : LogPass) (st st' : Store) (sl sl' : Option Sl) (ch ch' : Option (List Nat))
+    (hT : rle01Total lp.rle ≠ 0) :
+    setFrameSet (setFrameSet lp st sl ch).1 st' sl' ch' = setFrameSet { lp with frameSet := none } st' sl' ch' := by
+  have hkeep : ∀ (q : LogPass), (setFrameSet q st sl ch).1.dfsr = q.dfsr ∧ (setFrameSet q st sl ch).1.plan = q.plan ∧
+      (setFrameSet q st sl ch).1.xAxisIndex = q.xAxisIndex ∧ (setFrameSet q st sl ch).1.rle = q.rle := by
+    intro q
     unfold setFrameSet
-    simp only [hT, if_false, hD, Bool.false_eq_true]
-    rw [hF]
-  rw [h1]
-  unfold setFrameSet
-  simp [hT]
+    simp only
+    split
+    · exact ⟨rfl, rfl, rfl, rfl⟩
+    · split
+      · exact ⟨rfl, rfl, rfl, rfl⟩
+      · split
+        · exact ⟨rfl, rfl, rfl, rfl⟩
+        · split
+          · exact ⟨rfl, rfl, rfl, rfl⟩
+          · split <;> exact ⟨rfl, rfl, rfl, rfl⟩
+  obtain ⟨k1, k2, k3, k4⟩ := hkeep lp
+  have hh := setFrameSet_history_independent (setFrameSet lp st sl ch).1 { lp with frameSet := none } st' sl' ch'
+    k1 k2 k3 k4
+  exact Prod.ext (hh.2 (by rw [k4]; exact hT)) hh.1
 
 /-! ## Implied X axis -/
 
@@ -271,7 +284,7 @@ def lpW : LogPass :=
        | .ok b => (match b.addType01Data 300 0 9 119400 with | .ok c => c | .error _ => b)
        | .error _ => a)
      | .error _ => lp)
-  | .error _ => ⟨dfsrW, ⟨0, []⟩, 0, [], none, false⟩
+  | .error _ => ⟨dfsrW, ⟨0, []⟩, 0, [], none⟩
 
 /-- On the witness the full load is right: every implied X is `x0 + f·spacing`, and the matrix holds the recorded bytes. -/
 theorem implied_x_witness_step1 :
@@ -314,7 +327,7 @@ def lpD : LogPass :=
     (match lp.addType01Data 50 0 30 1000 with
      | .ok a => (match a.addType01Data 90 0 20 1030 with | .ok b => b | .error _ => a)
      | .error _ => lp)
-  | .error _ => ⟨dfsrD, ⟨0, []⟩, 0, [], none, false⟩
+  | .error _ => ⟨dfsrD, ⟨0, []⟩, 0, [], none⟩
 
 /-- the full matrix row of frame `f` (raw words) -/
 def rowD (f : Nat) : List (Option Nat) :=
@@ -333,5 +346,116 @@ theorem setFrameSet_values_witness :
     (setFrameSet lpD storeD (some ⟨1, 5, 2⟩) (some [2])).2
       = .ok [.seek 50, .read 50 0 2, .skip 10, .read 50 12 4, .skip 4, .read 50 20 2, .seek 90, .read 90 0 2, .read 90 2 4, .skip 4, .read 90 10 2] := by
   refine ⟨by decide +kernel, by decide +kernel, by decide +kernel, by decide +kernel⟩
+
+/-! ## Sub-selection is a sub-matrix (direct X) — general theorem for the class "all channels, one data record"
+
+Full statement wanted (`setFrameSet_values`): for every direct-X log pass (any number of data records, any
+frames-per-record pattern), every slice inside the frame count and every channel list, the loaded matrix is the full
+matrix restricted to rows `range(slice)` and columns `chans ∪ {x}`.
+
+Proved below: the class **channel list `None` (all channels), log pass held in one data record**, for every channel
+shape (any number of channels, samples, bursts, word lengths), every record length `n`, every slice
+`start < stop ≤ n` with any step (and `None`), every earlier frame set: the load succeeds and row `i` of the matrix holds
+exactly the words of all channels of frame `start + i·step`, read from the record bytes.
+
+Exact gap to the full statement:
+* more than one data record — the per-record block is already proved for an arbitrary position in the matrix
+  (`block_exec_all`: any `frInt`, any arithmetic progression of offsets inside the record); missing is the grouping of
+  `_retFrameSetMap` (frames → consecutive per-record buffers, `sorted` keeps record order) and the induction over the
+  map entries in `genFrameSetEventsAux`/`execEvs`;
+* proper channel subsets — `events_cover` proves which bytes are read; missing is the labelling of every read event
+  with a contiguous run `(chFrom, chTo)` of the selected channels and the matching `setFrameBytes` writes.
+Both are covered by kernel-evaluated witnesses (`setFrameSet_values_witness`: 2 records, subset `[2]`, step 2), by the
+correspondence run and by the oracle. -/
+
+/-- **`setFrameSet_values`, all channels, single record (partial)** — see the section comment for the exact gap. -/
+theorem setFrameSet_values_allchannels_single_partial
+    (d : Dfsr) (k n t : Nat) (x : Int) (bs : List Nat) (st : Store) (fsOld : Option FrameSet) (sl : Option Sl)
+    (hrm : d.recMode = 0) (hk : d.chans.length = k + 1) (hok : d.sizesOk)
+    (hfind : Store.find st t = some bs) (hhead : bs.head? = some d.dataType)
+    (hbs : bs.length = 2 + n * sumN (d.chans.map Chan.size))
+    (hlt : (slOrAll sl n).start < (slOrAll sl n).stop) (hstop : (slOrAll sl n).stop ≤ n) :
+    ∃ ops, (setFrameSet ⟨d, ⟨0, d.chans.map Chan.size⟩, 0, [Item01.mk1 t n x], fsOld⟩ st sl none).2 = .ok ops ∧
+      (setFrameSet ⟨d, ⟨0, d.chans.map Chan.size⟩, 0, [Item01.mk1 t n x], fsOld⟩ st sl none).1.frameSet.map (·.frames)
+        = some ((rangeList (slOrAll sl n).start (slOrAll sl n).stop (slOrAll sl n).step1).map (rowOf d bs)) := by
+  have htot : rle01Total [Item01.mk1 (t : Int) n x] = n := by simp [rle01Total, Item01.totalFrames, Item01.mk1]
+  generalize hS : slOrAll sl n = S at hlt hstop
+  obtain ⟨a, b, c0⟩ := S
+  simp only at hlt hstop
+  have hstep : 0 < (Sl.mk a b c0).step1 := by unfold Sl.step1; split <;> omega
+  generalize hc : (Sl.mk a b c0).step1 = c at hstep
+  have hn0 : n ≠ 0 := by omega
+  -- the offsets: an arithmetic progression
+  have hlenR := rangeLen_lt a b c hlt hstep
+  generalize hlen : rangeLen (a + c) b c = len at hlenR
+  have hbuf : rangeList a b c = ap a c (len + 1) := by rw [rangeList_eq_ap, hlenR]
+  have hlast : a + len * c < n := by
+    have h1 : rangeLen a b c = (b - a - 1) / c + 1 := by unfold rangeLen; simp [hlt]
+    have h2 : len = (b - a - 1) / c := by omega
+    have h3 := Nat.div_mul_le_self (b - a - 1) c
+    rw [← h2] at h3; omega
+  -- the new frame set
+  have hany : (List.range d.chans.length).any (fun e => decide (e ≥ d.chans.length)) = false := by
+    rw [List.any_eq_false]; intro e he; simp at he; simp; omega
+  have hnew : FrameSet.new d ⟨a, b, c0⟩ none 0
+      = .ok ⟨List.range d.chans.length, len + 1,
+          List.replicate (len + 1) (List.replicate (sumN ((List.range d.chans.length).map (fun e => ((d.chans[e]?).map Chan.numValues).getD 0))) none),
+          [], none⟩ := by
+    unfold FrameSet.new
+    simp only [hrm, hany, hc, hlenR]
+    simp
+  -- events
+  have hmap : retFrameSetMap ⟨d, ⟨0, d.chans.map Chan.size⟩, 0, [Item01.mk1 (t : Int) n x], fsOld⟩ ⟨a, b, c0⟩
+      = .ok [((t : Int), ap a c (len + 1))] := by
+    unfold retFrameSetMap
+    simp only [hc]
+    rw [rangeList_cons a b c hlt hstep]
+    have hfr : ∀ f ∈ rangeList (a + c) b c, f < n := by
+      intro f hf
+      have : f ∈ rangeList a b c := by rw [rangeList_cons a b c hlt hstep]; exact List.mem_cons_of_mem _ hf
+      rw [hbuf, ap] at this
+      simp only [List.mem_map, List.mem_range] at this
+      obtain ⟨i, hi, rfl⟩ := this
+      have : i * c ≤ len * c := Nat.mul_le_mul_right _ (by omega)
+      omega
+    have hl : rle01Tell [Item01.mk1 (t : Int) n x] a = .ok ((t : Int), a) := by
+      have han : a < n := by omega
+      rw [rle01Tell_locate]; simp [expand, mk1_expand, locate, han]
+    simp only [retFrameSetMapAux, hl, mapAppend]
+    rw [retFrameSetMapAux_single (t : Int) n x _ hfr [a]]
+    simp only [sortByKey, List.foldr, insertByKey, List.singleton_append]
+    rw [← rangeList_cons a b c hlt hstep, hbuf]
+  -- one record block
+  have hrowsInit : ∀ row ∈ List.replicate (len + 1) (List.replicate (sumN ((List.range d.chans.length).map (fun e => ((d.chans[e]?).map Chan.numValues).getD 0))) (none : Option Nat)),
+      row.length = sumN (d.chans.map Chan.numValues) := by
+    intro row hm
+    rw [List.eq_of_mem_replicate hm, List.length_replicate]
+    congr 1
+    apply List.ext_getElem
+    · simp
+    · intro i h1 h2; simp at h1; simp [h1]
+  obtain ⟨a', b', c', evs, r', hsl, hgen, hex, hfs⟩ := block_exec_all d st t bs k n a c len 0 ⟨0, d.chans.map Chan.size⟩ rfl hk hok hstep
+    hfind hhead hbs hlast
+    ⟨none, 0, ⟨List.range d.chans.length, len + 1,
+          List.replicate (len + 1) (List.replicate (sumN ((List.range d.chans.length).map (fun e => ((d.chans[e]?).map Chan.numValues).getD 0))) none),
+          [], none⟩, []⟩ rfl hrowsInit (by simp)
+  have hevs : genFrameSetEvents ⟨d, ⟨0, d.chans.map Chan.size⟩, 0, [Item01.mk1 (t : Int) n x], fsOld⟩ ⟨a, b, c0⟩ (List.range d.chans.length)
+      = .ok (⟨.seekLr, t, none, none, none⟩ :: renumber (ap a c (len + 1)) 0 evs 0 ++ []) := by
+    unfold genFrameSetEvents
+    rw [hmap]
+    simp only [genFrameSetEventsAux, hsl, hk, hgen, Int.toNat_natCast]
+  unfold setFrameSet
+  simp only [htot, hn0, if_false, hS, hnew, Nat.succ_ne_zero, hevs, List.append_nil, hex]
+  refine ⟨_, rfl, ?_⟩
+  simp only [Option.map_some, hfs, Option.some.injEq]
+  rw [hbuf, setRows_full]
+  simp [ap]
+
+example : ∃ ops, (setFrameSet ⟨dfsrD, ⟨0, dfsrD.chans.map Chan.size⟩, 0, [Item01.mk1 50 3 1000], none⟩
+      [(50, [0, 0] ++ frameD 0 ++ frameD 1 ++ frameD 2)] (some ⟨0, 3, 2⟩) none).2 = .ok ops :=
+  (setFrameSet_values_allchannels_single_partial dfsrD 2 3 50 1000 ([0, 0] ++ frameD 0 ++ frameD 1 ++ frameD 2)
+    [(50, [0, 0] ++ frameD 0 ++ frameD 1 ++ frameD 2)] none (some ⟨0, 3, 2⟩) rfl rfl
+    (by intro c hc; simp [dfsrD] at hc; rcases hc with rfl | rfl | rfl <;> decide)
+    (by decide) (by decide) (by decide) (by decide) (by decide)).imp (fun _ h => h.1)
 
 end TD.C06
